@@ -866,6 +866,22 @@ struct Exec
 	{
 		ctx.probe(P_SWEEP);
 		// a fixed set of probe questions: nothing but Set_Prefactor/Multiply may have altered the object's observable behaviour
+		if(c09)
+		{
+			// the public `domain` member is part of the observable behaviour
+			if(!tab.two_d)
+			{
+				Interpolation F = make1d(tab);
+				if(s.o1->domain != F.domain)
+					ctx.violate("C09:domain-member", "the public domain member of a used object differs from that of a fresh object" + where(o));
+			}
+			else
+			{
+				Interpolation_2D F = make2d(tab);
+				if(s.o2->domain != F.domain)
+					ctx.violate("C09:domain-member", "the public domain member of a used 2D object differs from that of a fresh object" + where(o));
+			}
+		}
 		if(!tab.two_d)
 		{
 			const std::vector<double>& xs = tab.xs;
